@@ -36,5 +36,5 @@ pub fn outcome_json(o: &Outcome) -> Value {
 
 /// Runs `f` on a thread with a large stack (recursive descent depth is input dependent).
 pub fn with_big_stack<T: Send + 'static>(f: impl FnOnce() -> T + Send + 'static) -> T {
-    std::thread::Builder::new().stack_size(1 << 30).spawn(f).unwrap().join().unwrap()
+    std::thread::Builder::new().stack_size(if cfg!(miri) { 1 << 23 } else { 1 << 30 }).spawn(f).unwrap().join().unwrap()
 }
